@@ -19,7 +19,7 @@
    stepping (scrub_loop).  An object's `_property_groups` is a list of (group id, the group's `_properties`).      *)
 From GV Require Import Prelude.Base.
 
-Definition grp : Type := (nat * list nat)%type.
+Notation grp := (nat * list nat)%type (only parsing).
 
 Definition memb (x : nat) (l : list nat) : bool := existsb (Nat.eqb x) l.
 
